@@ -862,6 +862,23 @@ pub async fn drain_and_final(sim: &mut Sim) {
                     ));
                     return;
                 }
+                "C08" if !handles.is_empty() => {
+                    // the accept loop sees no available worker: true only if every worker in the
+                    // rotation really is at its limit (every connection was released above)
+                    let spare = handles.iter().find(|idx| sh.live_slot_of(**idx).map_or(false, |s| sh.in_progress(s) < sh.cfg.limit));
+                    if let Some(idx) = spare {
+                        let slot = sh.live_slot_of(*idx).unwrap();
+                        sh.violate(Violation::new(
+                            "rotation-member-never-available",
+                            format!(
+                                "after worker faults, {w} client(s) are still waiting on l{l} at quiescence: worker w{idx} is in the rotation {handles:?} with {} connection(s) in progress (limit {}) but the accept loop never marks it available again",
+                                sh.in_progress(slot),
+                                sh.cfg.limit
+                            ),
+                        ));
+                        return;
+                    }
+                }
                 _ => {}
             }
         }
